@@ -185,6 +185,33 @@ func extractC08() *lean {
 		})
 	}
 	l.def("rollbackReloadContexts", "List String", leanStrList(rollbackCtx), rollbackCtx)
+	// state.Add: the write transaction and its rollback handler form one critical section (addMutex)
+	{
+		addFn := funcDecl(st, "Add")
+		mu := c08Calls(addFn, "s.addMutex.")
+		l.def("addMutexCalls", "List String", leanStrList(mu), mu)
+		firstAfter := []string{}
+		var defers []string
+		if addFn != nil {
+			ast.Inspect(addFn, func(n ast.Node) bool {
+				switch x := n.(type) {
+				case *ast.CallExpr:
+					if exprString(x.Fun) == "stoabs.AfterCommit" && len(firstAfter) == 0 && len(x.Args) == 1 {
+						if id, ok := x.Args[0].(*ast.Ident); ok {
+							firstAfter = append(firstAfter, id.Name)
+						} else {
+							firstAfter = append(firstAfter, "<func>")
+						}
+					}
+				case *ast.DeferStmt:
+					defers = append(defers, c08Src(stFset, x.Call))
+				}
+				return true
+			})
+		}
+		l.def("addFirstAfterCommit", "List String", leanStrList(firstAfter), firstAfter)
+		l.def("addDefers", "List String", leanStrList(defers), defers)
+	}
 	l.def("addTxOptions", "List String", leanStrList(c08Calls(funcDecl(st, "Add"), "stoabs.")), c08Calls(funcDecl(st, "Add"), "stoabs."))
 
 	// comparison operators / call structure the model mirrors
